@@ -43,7 +43,7 @@ where
         let Some(val) = self.view.last() else { return };
         debug_assert!(val.is_finite(), "value must be finite");
 
-        if self.q_vals.len() > self.window_len {
+        if self.q_vals.len() >= self.window_len {
             let old_val = self.q_vals.pop_front().unwrap();
             self.sum = self.sum - old_val;
         }
